@@ -824,7 +824,8 @@ def _inherit_from(context, uri, calling_uri):
 
     gen_ns = getattr(template.module, "_mako_generate_namespaces", None)
     if gen_ns is not None:
-        gen_ns(context)
+        # with the context of the template the namespaces belong to
+        gen_ns(lclcontext)
     return (template.callable_, lclcontext)
 
 
